@@ -35,15 +35,17 @@ import re
 import shutil
 import sys
 import tempfile
+import types
 
 import gin
 from gin import config as gc
 
-BOUNDS = ('1-3 gin files (includes or successive parse_config calls) over a fixed tree of 5 modules x 7 '
-          'targets (function, holder, class, 2 methods, nested class, its method) + 3 re-exported '
-          'names; 1-3 imports per file in 4 forms with aliases from a pool of 3 (forcing collisions); '
-          '1-6 bindings/references per file in scopes {"", "s"}, any order; 13 error cases; quick: '
-          '~170 fixed + 700 sampled, thorough: ~170 + 15000')
+BOUNDS = ('1-3 gin files (nested includes or successive parse_config calls) over a fixed tree of 4 '
+          'modules x 7 targets (function, holder, class, 2 methods, nested class, its method) + 3 '
+          're-exported names; 1-3 import groups per file in 4 forms with aliases from a pool of 3 '
+          '(forcing colliding bound names within and across files); 1-6 bindings/references per file '
+          'in scopes {"", "s"} in any order; 13 error cases; 171 fixed cases + 1300 (quick) / 20000 '
+          '(thorough) sampled')
 EXHAUSTIVE = {'quick': False, 'thorough': False}
 
 _TEMPLATE = '''
@@ -69,12 +71,13 @@ MODULES = ['c19pkg.alpha.util', 'c19pkg.beta.util', 'c19pkg.beta.other', 'C19Cap
 PATHS = {'fn': ['x', 'y'], 'hold': ['value'], 'K': ['a'], 'K.meth': ['m'], 'K.meth2': ['n'],
          'K.Inner': ['i'], 'K.Inner.im': ['q']}
 REEXPORT = {'alpha_fn': 'fn', 'AlphaK': 'K', 'AlphaK.meth': 'K.meth'}   # in c19pkg.beta.other
-_TREE = []
+_TREE, _ROOT = [], []
 
 
 def _tree():
   if not _TREE:
     root = tempfile.mkdtemp(prefix='c19_')
+    _ROOT.append(root)
     atexit.register(shutil.rmtree, root, True)
     for mod in MODULES:
       parts = mod.split('.')
@@ -100,11 +103,14 @@ def _py_import(table, form, module, alias):
     table[module.split('.')[0]] = sys.modules[module.split('.')[0]]   # import a.b.c binds `a`
 
 
-def _py_resolve(table, selector):
+def _py_resolve(table, selector, loaded=None):
+  """With `loaded`, a submodule reached as an attribute must be imported by the text itself."""
   parts = selector.split('.')
   obj = table[parts[0]]            # KeyError: not provided by this file's imports
   for p in parts[1:]:
     obj = getattr(obj, p)
+    if loaded is not None and isinstance(obj, types.ModuleType) and obj.__name__ not in loaded:
+      raise ImportError('%s is not imported by the config string' % obj.__name__)
   return obj
 
 
@@ -154,8 +160,16 @@ class _Model:
       elif kind in ('bind', 'ref'):
         sels = [st[2]] if kind == 'bind' else [st[2], st[4]]
         if any(s.split('.')[0] not in table for s in sels):
-          self.error = ('foreign_name_is_error', 'root of %s is not imported by %s' % (sels, fname))
-          self.foreign = (fname, st)
+          root = [s.split('.')[0] for s in sels if s.split('.')[0] not in table][0]
+          binders = [g for g, sts in self.case['files'].items() if g != fname and any(
+              t[0] == 'import' and _bound_name(*t[1:]) == root for t in sts)]
+          incl = lambda x, y: any(t[0] == 'include' and (t[1] == y or incl(t[1], y))
+                                  for t in self.case['files'][x])
+          where = ('includer' if any(incl(g, fname) for g in binders) else
+                   'included' if any(incl(fname, g) for g in binders) else
+                   'other_file' if binders else 'static_registry' if self.case.get('static') and
+                   root == 'registered_fn' else 'nowhere')
+          self.error = ('foreign_name_is_error', 'imported_by=%s (root %s used in %s)' % (where, root, fname))
           return
         objs = [_py_resolve(table, s) for s in sels]
         for o, s in zip(objs, sels):
@@ -249,7 +263,7 @@ _CS_REF = re.compile(r'^@((?:\w+/)*)([\w.]+)(\(\))?$')
 
 def _read_config_str(text):
   """Resolves a config string with the reference resolver only -> {(scope, id, param): value}."""
-  table, out, first = {}, {}, True
+  table, out, first, loaded = {}, {}, True, set()
   for line in text.split('\n'):
     mi = _CS_IMPORT.match(line)
     if mi:
@@ -260,15 +274,16 @@ def _read_config_str(text):
           raise SyntaxError('config string enables dynamic registration after an import')
       else:
         _py_import(table, 'from' if frm else 'plain', module, alias)
+        loaded.update(module.rsplit('.', n)[0] for n in range(module.count('.') + 1))
       first = False
       continue
     mb = _CS_BIND.match(line)
     if mb and not line.startswith('#'):
       scope, sel, param, val = mb.groups()
-      obj = _py_resolve(table, sel)
+      obj = _py_resolve(table, sel, loaded)
       mr = _CS_REF.match(val)
       if mr:
-        val = ('ref', mr.group(1).rstrip('/'), id(_py_resolve(table, mr.group(2))), bool(mr.group(3)))
+        val = ('ref', mr.group(1).rstrip('/'), id(_py_resolve(table, mr.group(2), loaded)), bool(mr.group(3)))
       else:
         val = ast.literal_eval(val)
       key = (scope.rstrip('/'), id(obj), param)
@@ -320,6 +335,9 @@ def check(case):
   for f in fails:
     _REPORTED[f['signature']] = _REPORTED.get(f['signature'], 0) + 1
     if _REPORTED[f['signature']] <= 1:
+      for k in ('expected', 'observed', 'text'):   # the temp dir is the only run-specific text
+        if isinstance(f.get(k), str):
+          f[k] = f[k].replace(_ROOT[0], '<tree>')
       out.append(f)
   return out[:4]
 
@@ -350,8 +368,10 @@ def _check(case):
     msg = ('root-not-imported' if 'was not provided by an import' in text else
            'selector-collision' if 'A different configurable matching' in text else
            'method-module-mismatch' if 'was registered with a custom module' in text else
-           ' '.join(text.split()[:3]))
-    if isinstance(raised, NameError) and late_method:   # every root IS imported by its own file
+           'attribute-not-found' if "Couldn't resolve selector" in text else ' '.join(text.split()[:3]))
+    # every root IS imported by its own file and every attribute exists there: such an error can
+    # only come from resolving an earlier reference in the wrong file
+    if isinstance(raised, (NameError, AttributeError)) and late_method:
       clause = 'references_keep_working'
     elif multi and late_method:
       clause = 'spellings_share'
@@ -445,8 +465,8 @@ ALIASES = ['u', 'util', 'm']
 def _spell(imp, module, path):
   """Selector of `path` in `module` through import statement `imp`, or None if out of reach."""
   _, form, imod, alias = imp
-  if form == 'plain' and not alias:
-    return module + '.' + path if module.split('.')[0] == imod.split('.')[0] else None
+  if form == 'plain' and not alias:   # binds the top package; only the imported module is surely loaded
+    return module + '.' + path if module == imod else None
   if module != imod and not module.startswith(imod + '.'):
     return None
   rest = module[len(imod):].lstrip('.')
@@ -454,10 +474,13 @@ def _spell(imp, module, path):
 
 
 def _imports_for(module):
-  pkg = module.rsplit('.', 1)[0]
-  out = [['import', 'plain', module, None], ['import', 'from', module, None]]
-  out += [['import', f, module, a] for f in ('plain', 'from') for a in ALIASES]
-  out += [['import', 'from', pkg, None], ['import', 'plain', pkg, 'm']] if '.' in pkg else []
+  """Groups of import statements; selectors are spelled through the last one of a group. A package
+  import is preceded by an import of the module itself, so that the submodule attribute exists."""
+  pkg, direct = module.rsplit('.', 1)[0], ['import', 'plain', module, None]
+  out = [[direct], [['import', 'from', module, None]]]
+  out += [[['import', f, module, a]] for f in ('plain', 'from') for a in ALIASES]
+  if '.' in pkg:
+    out += [[direct, ['import', 'from', pkg, None]], [direct, ['import', 'plain', pkg, 'm']]]
   return out
 
 
@@ -472,11 +495,12 @@ def _use(rng, imp, module, path, scope):
 def _fixed():
   a, b, o, cap = MODULES
   for module in (a, b):     # every import form x every target
-    for imp in _imports_for(module):
+    for group in _imports_for(module):
       for path in PATHS:
+        imp = group[-1]
         use = (['bind', '', _spell(imp, module, path), PATHS[path][0], 5] if path != 'hold' else
                ['ref', 's', _spell(imp, module, path), '', _spell(imp, module, 'K'), True])
-        yield {'files': {'main': [EN, imp, use]}, 'parse': ['main']}
+        yield {'files': {'main': [EN] + group + [use]}, 'parse': ['main']}
   ia, ib = ['import', 'plain', a, 'u'], ['import', 'plain', b, 'u']
   fa = ['import', 'from', a, None]
   errs = [
@@ -526,15 +550,16 @@ def _fixed():
 
 def _random_file(rng, name, children):
   mods = [rng.choice(MODULES[:3] if rng.random() < 0.97 else MODULES) for _ in range(rng.randint(1, 3))]
-  imports = [rng.choice(_imports_for(m)) for m in mods]
+  groups = [rng.choice(_imports_for(m)) for m in mods]
+  imports = [imp for g in groups for imp in g]
+  table = {}
+  for imp in imports:                        # later imports may rebind a name: use what is bound
+    table[_bound_name(*imp[1:])] = imp
   uses = []
   for _ in range(rng.randint(1, 6)):
-    k = rng.randrange(len(imports))
-    table = {}
-    for imp in imports:                      # later imports may rebind the name: use what is bound
-      table[_bound_name(*imp[1:])] = imp
-    imp = imports[k] if table[_bound_name(*imports[k][1:])] is imports[k] else None
-    if imp is None:
+    k = rng.randrange(len(groups))
+    imp = groups[k][-1]
+    if table[_bound_name(*imp[1:])] is not imp:
       continue
     path = rng.choice(list(PATHS) + ['K', 'K.meth', 'K.meth'])
     if mods[k] == MODULES[2] and rng.random() < 0.5 and _spell(imp, mods[k], 'alpha_fn'):
@@ -552,7 +577,7 @@ def cases(tier, rng):
   _tree()
   for c in _fixed():
     yield c
-  for _ in range(700 if tier == 'quick' else 15000):
+  for _ in range(1300 if tier == 'quick' else 20000):
     shape = rng.choice(['one', 'one', 'include', 'include', 'two_calls', 'chain'])
     if shape == 'one':
       files, parse = {'main': _random_file(rng, 'main', [])}, ['main']
